@@ -31,6 +31,15 @@ class C11(Property):
 
     def generate(self, rng, tier, n):
         cases = []
+        # one definition + line per arm of Message::render (the child must print the same text; no empty user texts here:
+        # `some("")` is the user's own empty message)
+        for r in range(1 if tier == "quick" else 30):
+            for i, (tag, opts, argv, unset) in enumerate(gen.message_cases(rng)):
+                if tag == "some" or unset:
+                    continue
+                argv0 = rng.choice(ARGV0)
+                name = expected_name(argv0)
+                cases.append(Case("m%d_%d" % (r, i), opts, argv, name=name, tags={"argv0": argv0, "name": name, "msg": tag}))
         k = 0
         while len(cases) < n:
             opts, names = gen.gen_options(rng, features=("alt", "cmd", "pos", "adj", "grp"), allow_catch=False, env_p=0.0)
